@@ -275,6 +275,8 @@ class IPrefix4(IPrefix, IComponent, FlowIPv4):
         Returns:
             New instance of cls with packed wire format
         """
+        if not 0 <= netmask <= 32:
+            raise ValueError(f'invalid IPv4 prefix length {netmask} in a flow rule\n  Must be 0 to 32')
         packed = bytes([netmask]) + raw[: CIDR.size(netmask)]
         return cls(packed)
 
@@ -344,6 +346,10 @@ class IPrefix6(IPrefix, IComponent, FlowIPv6):
         Returns:
             New instance of cls with packed wire format
         """
+        if not 0 <= netmask <= 128:
+            raise ValueError(f'invalid IPv6 prefix length {netmask} in a flow rule\n  Must be 0 to 128')
+        if not 0 <= offset <= netmask:
+            raise ValueError(f'invalid IPv6 prefix offset {offset} in a flow rule\n  Must be 0 to the prefix length')
         packed = bytes([netmask]) + raw[: CIDR.size(netmask)]
         return cls(packed, offset)
 
